@@ -79,6 +79,13 @@ type lockCfg struct {
 	ExtraAccounts  []sdk.AccAddress // accounts that exist at genesis besides validators and relayer members
 }
 
+// splitLock is a directed scenario: a fresh validator gets its whole power from one token in two or three locks whose
+// power shares are truncated one by one (1.6 + 1.6 units give 1 + 1), then unlocks the sum (3.2 units are worth 3).
+type splitLock struct {
+	vi, stage, wait int
+	tok             common.Address
+}
+
 type hVal struct {
 	Key     world.ValKey
 	Addr    common.Address
@@ -131,6 +138,7 @@ type blockOps struct {
 }
 
 type lockHist struct {
+	split *splitLock // directed scenario in progress: power granted in pieces, taken back in one go
 	memberVal bool // a validator with a relayer voter's key has been created
 	c         *vc.Ctx
 	cfg       lockCfg
@@ -278,9 +286,13 @@ func (h *lockHist) lockAmount(tok common.Address) *big.Int {
 	choices := []*big.Int{big.NewInt(1), big.NewInt(1000), new(big.Int).Set(e18), new(big.Int).Mul(e18, big.NewInt(int64(1+h.r.Intn(50)))),
 		new(big.Int).Sub(e18, big.NewInt(1)), new(big.Int).Add(e18, big.NewInt(1))}
 	if t != nil {
-		if t.Weight > 1 {
+		if t.Weight >= 1 {
 			q := new(big.Int).Div(e18, new(big.Int).SetUint64(t.Weight))
 			choices = append(choices, q, new(big.Int).Sub(q, big.NewInt(1)), new(big.Int).Add(q, big.NewInt(1)))
+			// fractions of a power unit: what several locks add up to in power (each truncated) differs from what their sum
+			// is worth when it is unlocked in one go
+			choices = append(choices, new(big.Int).Div(new(big.Int).Mul(q, big.NewInt(8)), big.NewInt(5)), new(big.Int).Div(new(big.Int).Mul(q, big.NewInt(3)), big.NewInt(5)),
+				new(big.Int).Sub(new(big.Int).Mul(q, big.NewInt(2)), big.NewInt(1)), new(big.Int).Div(new(big.Int).Mul(q, big.NewInt(8)), big.NewInt(5)))
 		}
 		th := t.Threshold.BigInt()
 		if th.Sign() > 0 {
@@ -367,6 +379,47 @@ func (h *lockHist) gen() *blockOps {
 			vi := h.pickVal(true)
 			o.Reqs.Locking.Creates = append(o.Reqs.Locking.Creates, &goattypes.CreateRequest{Validator: h.vals[vi].Addr, Pubkey: uncompressed64(h.vals[vi].Key)})
 			o.Desc = append(o.Desc, fmt.Sprintf("re-create v%d", vi))
+		}
+	}
+	if h.split == nil && w.Lock > 0 && w.Unlock > 0 && h.post != nil && h.ch.Height > 2 && roll(6) {
+		tok := []common.Address{tokGOAT, tokBTC}[h.r.Intn(2)]
+		if t := h.token(h.post, tok); t != nil && t.Weight >= 1 && t.Weight < 1_000_000 && t.Threshold.IsZero() {
+			k := world.NewValKey(h.c.Seed, h.cfg.Label+"/split", len(h.vals)*1000+h.r.Intn(1000))
+			v := &hVal{Key: k, Addr: common.BytesToAddress(k.Cons)}
+			h.vals = append(h.vals, v)
+			o.Reqs.Locking.Creates = append(o.Reqs.Locking.Creates, &goattypes.CreateRequest{Validator: v.Addr, Pubkey: uncompressed64(k)})
+			o.creates = append(o.creates, len(h.vals)-1)
+			o.Desc = append(o.Desc, fmt.Sprintf("create v%d (split-lock scenario on %s)", len(h.vals)-1, denomOf(tok)))
+			h.split = &splitLock{vi: len(h.vals) - 1, tok: tok}
+			h.c.Count("split_lock_scenarios", 1)
+		}
+	}
+	if sp := h.split; sp != nil && w.Lock > 0 && w.Unlock > 0 { // paused in blocks without locking traffic (probe blocks of C18)
+		t := h.token(h.post, sp.tok)
+		switch {
+		case t == nil || t.Weight < 1:
+			h.split = nil
+		case sp.stage < 2+sp.vi%2: // two or three locks of 1.6 (or 0.6) power units each
+			q := new(big.Int).Div(pow10(18), new(big.Int).SetUint64(t.Weight))
+			amt := new(big.Int).Div(new(big.Int).Mul(q, big.NewInt([]int64{8, 8, 3}[sp.stage%3])), big.NewInt(5))
+			lr := &goattypes.LockRequest{Validator: h.vals[sp.vi].Addr, Token: sp.tok, Amount: amt}
+			o.Reqs.Locking.Locks = append(o.Reqs.Locking.Locks, lr)
+			o.locks = append(o.locks, lr)
+			o.Desc = append(o.Desc, fmt.Sprintf("lock v%d %s %s (split-lock scenario)", sp.vi, denomOf(sp.tok), amt))
+			sp.stage++
+			sp.wait = h.r.Intn(3)
+		case sp.wait > 0:
+			sp.wait--
+		default: // everything back in one request
+			hold := h.holding(h.post, sp.vi, sp.tok)
+			if hold.Sign() > 0 {
+				rec := &unlockRec{ID: h.nextUID, Val: sp.vi, Token: sp.tok, Requested: hold}
+				h.nextUID++
+				o.unlocks = append(o.unlocks, rec)
+				o.Reqs.Locking.Unlocks = append(o.Reqs.Locking.Unlocks, &goattypes.UnlockRequest{Id: rec.ID, Validator: h.vals[sp.vi].Addr, Recipient: common.BigToAddress(big.NewInt(int64(0x1000 + rec.ID))), Token: sp.tok, Amount: hold})
+				o.Desc = append(o.Desc, fmt.Sprintf("unlock#%d v%d %s %s (split-lock scenario: everything)", rec.ID, sp.vi, denomOf(sp.tok), hold))
+			}
+			h.split = nil
 		}
 	}
 	if roll(w.Lock) {
@@ -494,7 +547,14 @@ func (h *lockHist) gen() *blockOps {
 		}
 	}
 	// evidence against a validator of a recent set
+	nEv := 0
 	if roll(w.Evidence) {
+		nEv = 1
+		if h.r.Intn(3) == 0 {
+			nEv = 2 + h.r.Intn(2) // several offenders in one block (a light-client attack yields one entry per byzantine validator)
+		}
+	}
+	for ev := 0; ev < nEv; ev++ {
 		vi := h.pickVal(true)
 		if !(h.cfg.Protect0 && vi == 0) && h.ch.Height > 1 {
 			age := int64(h.r.Intn(8))
